@@ -804,6 +804,10 @@ func Regex(ctx *context.Context, left, right value.Value) (value.Value, error) {
 }
 
 func matchesAcl(acl value.Acl, ip net.IP) (bool, error) {
+	// A local variable declared as ACL does not refer to any declaration: nothing matches
+	if acl.Value == nil {
+		return false, nil
+	}
 	for _, entry := range acl.Value.CIDRs {
 		var mask int64 = 32
 		if entry.Mask != nil {
